@@ -93,8 +93,11 @@ func (c C12) Run(t *tape.Tape, opt core.RunOpt) (res core.Result) {
 	// answers for such an object is outside the property: the data is not typed
 	// by the schema).
 	noUnion := strat == workload.StratMixed && !(q.Raw["Dog"] && q.Raw["Bird"] && q.Raw["Keeper"] && q.Raw["Cell"])
+	// half of the runs keep to the core fields (tasks then collide more often on
+	// the same first-use windows), the other half mixes in the special ones
+	extras := t.Bool(1, 2)
 	for i := range pool {
-		pool[i] = workload.GenRequest(t, workload.ReqOpt{Strat: strat, MultiOp: !pathMode && t.Bool(1, 4), Introspection: !pathMode, NoUnion: noUnion, Ghost: true, Relay: t.Bool(1, 2), Pick: true, Nick: true,
+		pool[i] = workload.GenRequest(t, workload.ReqOpt{Strat: strat, MultiOp: !pathMode && t.Bool(1, 4), Introspection: !pathMode, NoUnion: noUnion, Ghost: extras && t.Bool(1, 2), Relay: extras && t.Bool(1, 2), Pick: extras && t.Bool(1, 2), Nick: extras && t.Bool(1, 2),
 			VarInLiteral: strat != workload.StratReflect, ShuffleArgs: true, MaxDepth: 2 + t.Draw(3), PathMode: pathMode})
 	}
 	base := make([]string, len(pool))
